@@ -328,7 +328,12 @@ def reference(spec):
             # the sparsity used by a coloring is determined numerically at the first point: a second
             # point is only demanded if the exact Jacobian has the same nonzero pattern there
             # (max/min/maximum/... select different entries at different points)
-            same = all(np.array_equal(r[1][n] != 0, q[n] != 0)
+            def _nz(J):
+                # entries that cancel to round-off (1/(x a) - 1/(x a)) are structural zeros for
+                # a numerical sparsity measurement
+                J = np.abs(np.asarray(J, dtype=float))
+                return J > 1e-10 * max(1.0, float(J.max(initial=0.0)))
+            same = all(np.array_equal(_nz(r[1][n]), _nz(q[n]))
                        for r, q in zip(res, pts[0][3]) for n in names)
             if not same and not zero_first:
                 continue
